@@ -196,6 +196,8 @@ fn state_string<Q: SingleObjectiveProblem>(state: &State<Q>, enc: &dyn Fn(&Q::En
         None => s.push_str("none"),
     }
     s.push_str(&format!("|evals:{:?}|iters:{:?}", state.try_get_value::<Evaluations>().ok(), state.try_get_value::<Iterations>().ok()));
+    // the generator's position: one more word from it (any extra or missing draw during the run shows here)
+    s.push_str(&format!("|next-word:{}", state.random_mut().next_u64()));
     s.push_str("|log:");
     s.push_str(&serde_json::to_string(&*state.log()).unwrap_or("log-ser-err".into()));
     s
